@@ -67,11 +67,29 @@ Definition release_all_replaced_trigger (pre : ostate) (st : ostep) : bool :=
   | _ => false
   end.
 
+(* 11: the shim sends an allocation WITH a node for a key that the application still lists as a bound allocation while
+       the request of that key was dropped by the placeholder timeout (removeAsksInternal("") removes the requests of
+       allocated placeholders too): the core finds no request, takes the message for a recovered allocation and adds it
+       over the bound one (same key): the old allocation's usage is never given back (application ledger <> sum of its
+       allocations; node and queue likewise). Same defect as finding C04-update-after-timeout-duplicates-key. *)
+Definition bound_without_request_trigger (pre : ostate) (st : ostep) : bool :=
+  match st_op st with
+  | OpAlloc r =>
+      negb (rq_foreign r) && negb (rq_node r =? 0) &&
+      match find_app pre (rq_app r) with
+      | Some a => existsb (fun x => oa_key x =? rq_key r) (ap_allocs a) &&
+                  negb (existsb (fun x => oa_key x =? rq_key r) (ap_requests a))
+      | None => false
+      end
+  | _ => false
+  end.
+
 Definition known_trigger_ext (pre : ostate) (st : ostep) : option N :=
   match known_trigger pre st with
   | Some p => Some p
   | None => if linked_placeholder_resize pre st then Some 7
             else if xnode_real_replaced_release pre st then Some 8
             else if xnode_timeout_trigger pre st then Some 9
-            else if release_all_replaced_trigger pre st then Some 10 else None
+            else if release_all_replaced_trigger pre st then Some 10
+            else if bound_without_request_trigger pre st then Some 11 else None
   end.
